@@ -170,6 +170,14 @@ def walk_no_nested(fn):
             stack.append(c)
 
 
+def memo_on(src, key, build):
+    """a value computed once per SourceSet and stored ON it (so it is freed with it: the self-test builds hundreds of overlaid source sets per process)"""
+    store = src.__dict__.setdefault('_memo', {})
+    if key not in store:
+        store[key] = build()
+    return store[key]
+
+
 def raised_classes(exc, fn, module=None, depth=0):
     """names of the exception classes a `raise <exc>` inside `fn` can raise: a constructor call, a local bound to one (on any path), a conditional expression,
     a call of a module-level helper that returns one; `<reraise>` for the variable of an enclosing `except ... as e`; `?` when it cannot be told"""
